@@ -23,10 +23,12 @@ def harnesses(tier):
                 o, pre=_pre),
             scenario_harness("flat-never-forever-window-timeout", Profile(
                 templates=("F3",), forever="free", never="free", window="free", timeout="free", perm="id",
-                raises="free", crit_job=False, top="pure"), o, pre=_pre),
+                crit_job=False, top="pure"), o, pre=_pre),
             scenario_harness("nested-raise-window", Profile(
                 templates=("N12",), raises="free", crit_job="free", crit_sched="free", window="free",
                 perm="id"), o, pre=_pre),
+            scenario_harness("flat4-orders", Profile(
+                templates=("F4",), crit_job=False, perm="two", top="pure"), o, pre=_pre),
         ]
     return [
         scenario_harness("flat4-raise-window", Profile(
